@@ -530,6 +530,48 @@ def _axis_bool(a, axis, op):
     return _new(vals, oshape, 'b')
 
 
+def ma_average(a, axis=None, weights=None, returned=False):
+    """numpy.ma.average: sum(w * a) / sum(w) over the NON-missing entries (a missing entry drops out together with its
+    weight); a cell / the whole result is missing when nothing contributes"""
+    a = a if isinstance(a, MaskedArray) else MaskedArray(_as_nd(a), None)
+    if weights is None:
+        r = a.mean(axis) if axis is not None else a.mean()
+        return (r, None) if returned else r
+    if axis is None:
+        flat = a.ravel()
+        wl = [lift(w) for w in (weights.cells() if isinstance(weights, ndarray) else list(S.flatten_list(weights) if hasattr(S, 'flatten_list') else weights))]
+        cols = [(flat.data.cells(), flat.maskcells(), wl)]
+        oshape = None
+    else:
+        n, oshape, dc, mc = _reduce_axis(a, axis)
+        if isinstance(weights, ndarray):
+            wl = [lift(w) for w in weights.cells()]
+        else:
+            wl = [lift(w) for w in weights]
+        if len(wl) != n:
+            raise ValueError("Length of weights not compatible with specified axis.")
+        cols = []
+        for c in range(dc.shape[1]):
+            cols.append(([a.buf[dc[r, c]] for r in range(n)], [a._mask.buf[mc[r, c]] for r in range(n)] if mc is not None else [S._F()] * n, wl))
+    vals, ms, dens = [], [], []
+    for vs, mk, ws in cols:
+        num = z3.Sum(*[z3.If(m_, R(0), w * v) for v, m_, w in zip(vs, mk, ws)]) if len(vs) > 1 else z3.If(mk[0], R(0), ws[0] * vs[0])
+        den = z3.Sum(*[z3.If(m_, R(0), w) for m_, w in zip(mk, ws)]) if len(vs) > 1 else z3.If(mk[0], R(0), ws[0])
+        allm = S._simp(z3.And(*mk))
+        if symx.CTX.decide(z3.And(z3.Not(allm), den == 0)):
+            raise Outside("numpy.ma.average with weights summing to zero")
+        vals.append(num / z3.If(allm, R(1), den))
+        ms.append(allm)
+        dens.append(den)
+    if oshape is None:
+        if symx.CTX.decide(ms[0]):
+            return (S.masked, None) if returned else S.masked
+        r = SymNum(vals[0], 'f', True)
+        return (r, SymNum(dens[0], 'f', True)) if returned else r
+    r = MaskedArray(_new(vals, oshape, 'f'), _new(ms, oshape, 'b'))
+    return (r, MaskedArray(_new(dens, oshape, 'f'), None)) if returned else r
+
+
 def ma_masked_values(x, value, rtol=1e-5, atol=1e-8, copy=True, shrink=True):
     """numpy.ma.masked_values: floating data is compared with isclose(x, value, rtol, atol), integer data exactly;
     the result carries the value as fill value; copy=False shares the data, the mask is a new array"""
@@ -906,6 +948,8 @@ def apply():
     M.masked_invalid, M.fix_invalid = ma_masked_invalid, ma_masked_invalid
     M.masked_equal, M.masked_not_equal = _ma_cmp_mask(operator.eq), _ma_cmp_mask(operator.ne)
     M.masked_values = ma_masked_values
+    M.average = ma_average
+    N.average = ma_average
     M.masked_less, M.masked_less_equal = _ma_cmp_mask(operator.lt), _ma_cmp_mask(operator.le)
     M.masked_greater, M.masked_greater_equal = _ma_cmp_mask(operator.gt), _ma_cmp_mask(operator.ge)
     M.count = ma_count
